@@ -51,6 +51,34 @@ def check(ck):
                 for c in node_calls(n):
                     if isinstance(c.func, ast.Attribute) and dump(c.func.value) == "self" and len(c.args) == 2:
                         sinks.append((n, c.args[1]))
+        if len(sinks) == 1:
+            # one site forwarding `args if args else kwargs` / `args or kwargs` (or the mirrored forms)
+            n1_, e1_ = sinks[0]
+            src = e1_
+            if isinstance(src, ast.Name):
+                defs_ = prov.rd_of(g).get(n1_.id, {}).get(src.id, ())
+                dn_ = [g.nodes[i] for i in defs_]
+                if len(dn_) == 1 and dn_[0].kind == "stmt" and isinstance(dn_[0].ast, ast.Assign):
+                    src = dn_[0].ast.value
+            pair = None
+            if isinstance(src, ast.IfExp) and isinstance(src.test, ast.Name) and isinstance(src.body, ast.Name) and isinstance(src.orelse, ast.Name) \
+                    and src.test.id == src.body.id:
+                pair = (src.body.id, src.orelse.id)
+            elif isinstance(src, ast.BoolOp) and isinstance(src.op, ast.Or) and len(src.values) == 2 and all(isinstance(v, ast.Name) for v in src.values):
+                pair = (src.values[0].id, src.values[1].id)
+            ck.require(pair is not None and set(pair) == set([va, kw]), "C01.1", "%s: forwards `%s`" % (q.fn(fi), dump(src)[:50]),
+                       "the non-empty argument collection, else the other one",
+                       "the call forwards `%s`: not `args if args else kwargs` (or an equivalent form)" % dump(src)[:60], q.loc(fi, n1_))
+            raises = [n for n in g.live_nodes() if n.kind == "raise" and "ProtocolError" in dump(n.ast.exc)]
+            guard_ok = False
+            dd_ = dominators(g)
+            for rz in raises:
+                tests = set(dump(g.nodes[i].test) for i in dd_[rz.id] if g.nodes[i].kind == "branch" and g.nodes[i].polarity)
+                if tests == set([va, kw]):
+                    guard_ok = True
+            ck.require(guard_ok, "C01.1", "%s: raise ProtocolError for args+kwargs" % q.fn(fi), "present",
+                       "mixing positional and keyword arguments is not rejected", q.loc(fi, fi.node))
+            continue
         if len(sinks) < 2:
             raise AnalysisError("anchor vanished: forwarding sites of %s (found %d)" % (q.fn(fi), len(sinks)))
 
@@ -97,7 +125,7 @@ def check(ck):
                         ck.require(dump(c.args[0]) == "self.__name" and dump(c.func) == "self.__send", "C01.1",
                                    "%s: %s(%s, ...)" % (q.fn(fi), dump(c.func), dump(c.args[0])), "self.__send(self.__name, ...)",
                                    "the call is not sent as self.__send(self.__name, <args>)", q.loc(fi, n))
-    ck.floor("C01.1", 8)
+    ck.floor("C01.1", 4)
 
     # ---- C01.7 method names: plain, dotted, notification, batch ---------------------------------------------
     K = shape.K
